@@ -3,6 +3,11 @@
 package light
 
 import (
+	"github.com/libp2p/go-libp2p/core"
+
+	"github.com/oasisprotocol/oasis-core/go/common/logging"
+	"github.com/oasisprotocol/oasis-core/go/p2p/rpc"
+
 	cmtlight "github.com/cometbft/cometbft/light"
 	cmtlightprovider "github.com/cometbft/cometbft/light/provider"
 	cmtlightstore "github.com/cometbft/cometbft/light/store"
@@ -26,4 +31,19 @@ func VerifNewClient(
 		return nil, err
 	}
 	return &Client{lightClient: lc}, nil
+}
+
+// VerifNewProvider builds a light block Provider over the given RPC client and a
+// fixed peer (NewProviderPool hard-wires libp2p), without the peer-refresh
+// worker.  Forwarding constructor only: the methods under test are unchanged.
+func VerifNewProvider(chainID string, rc rpc.Client, mgr rpc.PeerManager, peer core.PeerID) *Provider {
+	return &Provider{
+		chainID:   chainID,
+		p2pMgr:    mgr,
+		rc:        rc,
+		refreshCh: make(chan struct{}, 1),
+		logger:    logging.GetLogger("cometbft/light/p2p"),
+		pool:      &ProviderPool{peerRegistry: map[core.PeerID]bool{}},
+		peerID:    &peer,
+	}
 }
